@@ -6,15 +6,18 @@ from ..rules import changed
 def tu_check(tu):
     r = changed.analyse_tu(tu)
     f2, facts = changed.embedded_leaf(tu)
-    r["findings"] = r["findings"] + f2
+    from ..rules import samevalue
+    sv = samevalue.analyse_tu(tu)
+    r["findings"] = r["findings"] + f2 + sv["findings"]
     r["stats"]["embedded_leaf"] = facts
+    r["stats"]["value_store_functions"] = sv["n"]
     return r
 
 
 def run(tier="quick", seed=0, use_cache=True):
     res = engine.Result("C04")
     res.rules = ["CHANGED-FOLLOWS", "CALLER-MARKS", "EMBEDDED-LEAF",
-                 "PY-CHANGED-FOLLOWS", "PY-EMBEDDED-LEAF"]
+                 "PY-CHANGED-FOLLOWS", "PY-EMBEDDED-LEAF", "SAME-VALUE"]
     res.explanation = (
         "Must-follow dataflow over the clang AST CFG of all 22 translation "
         "units: every store to a persisted field (len, next, firstbucket, "
@@ -66,4 +69,6 @@ def run(tier="quick", seed=0, use_cache=True):
         pychanged = None
     if pychanged is not None:
         pychanged.check(res)
+        from ..rules import samevalue
+        samevalue.py_check(res)
     return res
